@@ -6,11 +6,14 @@ import NodisVerif.Proofs.BlockProgSimA
 namespace NodisVerif.Proofs.BlockProg
 open NodisVerif.Block NodisVerif.BlockProg NodisVerif.Proofs.Block
 
-/-- no panic is under way before a pop has been attempted; inside the loop of `look` nothing has been found yet -/
+/-- no panic is under way before a pop has been attempted; inside the loop of `look` nothing has been found yet;
+    null without a panic needs a timer (or the non-waiting form) -/
 def flagsOk (l : Loc) : Prop :=
   match l.pc with
   | .r1 | .r2 | .r3 | .l0 | .w0 | .w1 => l.panicking = false
   | .l1 => l.panicking = false ∧ l.found = false
+  -- a call that unwinds without an element and without a panic is the non-waiting form, or its timer was armed
+  | .u1 | .u2 | .u3 => l.found = false → l.panicking = false → 0 ≤ l.tmo → 0 < l.tmo
   | _ => True
 
 variable {σ : Sys} {bs : BState} {t : Tid} {ch : Choice} {s' : Shared} {l' : Loc} {e : Option Ev}
